@@ -72,7 +72,7 @@ impl Prop for C26 {
     fn runs(tier: Tier) -> u64 {
         match tier {
             Tier::Quick => 400_000,
-            Tier::Thorough => 20_000_000,
+            Tier::Thorough => 60_000_000,
         }
     }
     fn gen(r: &mut SplitMix, _t: Tier, _i: u64) -> Scn {
@@ -89,7 +89,22 @@ impl Prop for C26 {
         let category = r.below(3) as usize;
         let n = range(r, 5, 60) as usize;
         let mut big_left = 3u32;
-        let gaps_ns = (0..n).map(|_| gen_gap(r, rates[category], window, &mut big_left)).collect();
+        let mut rates = rates;
+        let mut window = window;
+        let mut gaps_ns: Vec<u64> = (0..n).map(|_| gen_gap(r, rates[category], window, &mut big_left)).collect();
+        if chance(r, 8) {
+            // template: fill the bucket, stay idle for about k * 2^32 / rate seconds (where a 32-bit
+            // rate * seconds product wraps to a small value), then fill it again
+            let rate = range(r, 5, 24) as u32;
+            rates[category] = rate;
+            window = range(r, 1, 2) as u32;
+            let cap = (rate * window) as usize;
+            let k = range(r, 1, (MAX_GAP_S * rate as u64) >> 32);
+            let idle_s = ((k << 32) + rate as u64 - 1) / rate as u64 + r.below(3);
+            gaps_ns = vec![0; cap + range(r, 0, 3) as usize];
+            gaps_ns.push(idle_s.min(MAX_GAP_S) * S + r.below(2) * r.below(S));
+            gaps_ns.extend(vec![0; cap + range(r, 1, 3) as usize]);
+        }
         Scn {
             rates,
             window,
